@@ -371,7 +371,20 @@ def gen_malformed(rng, kind):
     """strings and sequences that are malformed by construction"""
     a, b = GEN_EP[kind](rng), GEN_EP[kind](rng)
     cls = rng.choice(['range_field', 'missing', 'three', 'garbage', 'empty_range', 'tz', 'seq_len', 'seq_range',
-                      'seq_three', 'month_name'])
+                      'seq_three', 'month_name', 'glued', 'glued'])
+    if cls == 'glued' and kind == 'time':
+        cls = 'garbage'
+    if cls == 'glued':
+        # two tokens written without the separating blank: after the middle one is taken out the
+        # remaining pieces must NOT be read as one number
+        mon = rng.choice(MONTHS)[:3].lower()
+        d1, d2 = rng.randrange(1, 3), rng.randrange(0, 10)
+        if kind == 'date':
+            s = rng.choice([f"{d1}{mon}{d2}", f"{d1}{mon}{d2} - {MONTHS[b[0]-1][:3]} {b[1]}", f"{d1}.{mon}.{d2}"])
+        else:
+            s = rng.choice([f"{d1}{mon}{d2} 2028 12:00 / 2029-01-01 10:00", f"{mon} 5 20{d1}2:0028 / 2029-01-01 10:00",
+                            f"20{d1}{mon} 5{d2} 12:00 / 2029-01-01 10:00", f"2028 {d1}{mon}{d2} 12:00 / 2029-01-01 10:00"])
+        return dict(kind=kind, input=s, malformed=True, mclass=cls)
     if kind == 'time':
         sa, sb = r_time(rng, a, 'hms'), r_time(rng, b, 'hms')
         if cls == 'range_field':
